@@ -207,6 +207,8 @@ pub fn pool_wrap() {
         fds: Vec::new(),
         pools: Vec::new(),
         direct_enabled: false,
+        other: None,
+        signals: Vec::new(),
     };
     let fd = w.new_fd();
     match alloc::a10(|| a10::io::ReadBufPool::new(w.sq.clone(), size, 8)) {
